@@ -5,7 +5,7 @@ run(fn, args, st) is a generator of outcomes (st', kind, value) with kind in
   'panic'  a panic event (assert failure, panic!/expect/unwrap/unreachable!, model-defined panic), value = message
 States are owned by whoever receives them; anything that forks clones first.
 """
-import re, time, itertools
+import re, time, itertools, os
 import z3
 from .mir import parse_mir, ParsedBlocks, split_top
 from .values import *
@@ -147,12 +147,14 @@ class Executor:
         self.encoded = {}     # fn name -> hash (functions whose MIR was executed)
         self.models_used = set()
         self.seed = 0
+        self.query_timeout_s = float(os.environ.get('VERIF_QUERY_TIMEOUT_S', '60'))
         self._fcache = {}
 
     # ------------------------------------------------------------------ solver
     def solver(self):
         s = z3.Solver()
         s.set('random_seed', self.seed)
+        s.set('timeout', int(self.query_timeout_s * 1000))
         return s
 
     def feasible(self, st, extra=None):
@@ -377,12 +379,20 @@ class Executor:
         if k in ('copy', 'move'):
             return self._read_place(fn, o[1], frame, st)
         if k == 'const':
-            return self.const(o[1], st)
+            return self.const(o[1], st, fn)
         if k == 'fnitem':
             return FnItem(o[1])
         raise Unsupported(f'operand {o}')
 
-    def const(self, txt, st):
+    def const(self, txt, st, fn=None):
+        mp = re.search(r'::promoted\[(\d+)\]$', txt)
+        if mp and fn is not None:
+            pf = self.prog.promoted(fn, int(mp.group(1)))
+            if pf is not None:
+                outs = list(self.run(pf, [], st, 0))
+                if len(outs) == 1 and outs[0][1] == 'ret':
+                    return outs[0][2]
+                raise Unsupported(f'promoted constant {txt} did not evaluate to a single value')
         m = re.match(r'^(-?\d+)_(\w+)$', txt)
         if m and m.group(2) in INT_TYPES:
             return Int(int(m.group(1)), m.group(2))
@@ -409,7 +419,7 @@ class Executor:
             return Opaque(('bytes', txt[2:-1]))
         m = re.match(r'^ZeroSized: (\{closure@.*\})$', txt, re.S)
         if m:
-            return Closure(m.group(1), [])
+            return Closure(m.group(1), [], None, fn.name if fn is not None else None)
         m = re.match(r'^ZeroSized: (.*)$', txt, re.S)
         if m:
             return Adt(type_head(m.group(1)), None, [])
@@ -464,7 +474,7 @@ class Executor:
             if not m: raise Unsupported(f'repeat count {rv[2]}')
             return VecV([v] * int(m.group(1)), 'array')
         if k == 'closure':
-            return Closure(rv[1], [self._operand(fn, x, frame, st) for _, x in rv[2]], tuple(n for n, _ in rv[2]))
+            return Closure(rv[1], [self._operand(fn, x, frame, st) for _, x in rv[2]], tuple(n for n, _ in rv[2]), fn.name)
         if k == 'adt':
             return self.aggregate(rv[1], rv[2], [(n, self._operand(fn, x, frame, st)) for n, x in rv[3]])
         if k == 'len':
@@ -517,7 +527,9 @@ class Executor:
             if op == 'Sub': return Float(z3.fpSub(rm, x, y))
             if op == 'Mul': return Float(z3.fpMul(rm, x, y))
             if op == 'Div': return Float(z3.fpDiv(rm, x, y))
-            if op == 'Rem': return Float(z3.fpRem(x, y)) if False else _unsupported('float Rem needs fmod semantics')
+            if op == 'Rem':
+                from .models.nums import FMOD
+                return Float(FMOD(x, y))   # C fmod: uninterpreted (z3's fpRem is the IEEE remainder, a different function)
             cmpf = {'Lt': z3.fpLT, 'Le': z3.fpLEQ, 'Gt': z3.fpGT, 'Ge': z3.fpGEQ, 'Eq': z3.fpEQ, 'Ne': lambda p, q: z3.Not(z3.fpEQ(p, q))}.get(op)
             if cmpf: return Bool(cmpf(x, y))
         if isinstance(a, Int) and isinstance(b, Int):
@@ -616,7 +628,7 @@ class Executor:
         if isinstance(f, Ref):
             f = st.deref_all(f)
         if isinstance(f, Closure):
-            fn = self.prog.closure_fn(f.key)
+            fn = self.prog.closure_fn(f.key, f.parent, len(args), f.names)
             if fn is None:
                 raise Unsupported(f'closure body not found: {f.key}')
             # closure fns take (closure-or-ref, args...) ; by-ref closures get a reference to the closure value
